@@ -96,3 +96,11 @@ Definition indexed_pack_read (be : fmap) (o : op) : Prop :=
   | OReadPartial Pack i _ _ len => (0 < len)%nat /\ find (Pack, i) be <> None
   | _ => False
   end.
+
+(* ---- check's options ---- *)
+(* check_repository's clean-up of the cached packs against the tree packs of the index, as a
+   function of CheckOptions::trust_cache: it runs unless the guard regenerated from the source
+   names !opts.trust_cache (pack_cleanup_needs_untrusted) and the option is set.  (read_data
+   only adds full reads of packs, which never use the cache.) *)
+Definition check_cleanup (trust_cache : bool) (l : list (id * nat)) (ord : list id) : list op :=
+  if pack_cleanup_needs_untrusted && trust_cache then [] else [OCleanPacks l ord].
